@@ -123,12 +123,10 @@ def r3_errors_are_values(ctx):
 
 
 def run(ctx):
-    r1_census(ctx)
     if os.environ.get("QV_CENSUS_GEN") == "1":
+        r1_census(ctx)
         return ("table generation", "n/a")
-    r2_no_unwrap_on_parsed_numbers(ctx)
-    r3_errors_are_values(ctx)
-    r4_byte_offset_discipline(ctx)
+    ctx.run_rules([r1_census, r2_no_unwrap_on_parsed_numbers, r3_errors_are_values, r4_byte_offset_discipline])
     ctx.note("NOT decided: termination of parsing/compilation and that a reported error position lies inside the input")
     return (
         "Decides the no-panic clause structurally: a deny-by-default census of every panic-capable construct reachable from parse and "
